@@ -9,7 +9,7 @@ META = dict(
     coq_targets=['CheckArray.vo'],
     rule="start {empty, non-empty (zero-filled, >= 12 KB so that only the data file can hit the "
          "file-size limit)} x 1-D..3-D x number of chunks 1..n x failure position 0..n-1 x "
-         "failure kind {iterable raises, wrong trailing shape, wrong rank, unconvertible item, "
+         "failure kind {iterable raises, wrong trailing shape, wrong rank, zero-length chunk of a wrong shape, unconvertible item, "
          "RLIMIT_FSIZE write failure at chunk boundary -1/0/+1 byte, mid-element, mid-row}; "
          "a case is non-trivial if the failure happens after at least one completed chunk or "
          "inside a write; distinct by (type, shape, plan)",
@@ -36,6 +36,15 @@ def bad_item(kind, rng, nt, bo, tail):
         return nd_spec(small_values(rng, bad, own))
     if kind == 'rank':
         return nd_spec(small_values(rng, (2,) + t + (2,), own))
+    if kind == 'shape0':     # no elements, but a shape that does not fit: still refused
+        if t:
+            c = rng.choice(['list', 'rank', 'dim', 'mid'])
+            if c == 'list':
+                return dict(kind='list', value=[])
+            bad = {'rank': (0,) + t + (2,), 'dim': (0,) + tuple(x + 1 for x in t), 'mid': (2,) + tuple(0 for _ in t)}[c]
+        else:
+            bad = (0, 2)
+        return nd_spec(np.zeros(bad, dtype=own))
     if kind == 'unconv':
         k = rng.choice(['obj', 'str', 'ragged', 'numlist', 'numlist'])
         if k == 'numlist':
@@ -74,9 +83,9 @@ def gen(ctx):
                     if ctx.quick and (ti + nchunks + len(tail)) % 2:
                         continue
                     for pos in range(nchunks):
-                        kinds = ['raise', 'shape', 'rank', 'unconv', 'w']
+                        kinds = ['raise', 'shape', 'rank', 'unconv', 'shape0', 'w']
                         if ctx.quick:
-                            kinds = [kinds[(ti + pos + nchunks) % 5], 'w']
+                            kinds = [kinds[(ti + pos + nchunks) % 5], 'shape0', 'w'] if (ti + pos) % 2 else [kinds[(ti + pos + nchunks) % 5], 'w']
                         for kind in kinds:
                             items = []
                             for i in range(nchunks):
@@ -117,6 +126,31 @@ def gen(ctx):
                 cases.append(mk_case(r, nt, bo, tail, nrows, True, op2, 'w', 0))
                 if ctx.quick:
                     break
+    # a chunk larger than the I/O buffers (> 8 KB) whose size is not a multiple of the 4 KB block: the
+    # file system refuses the write inside the last, partial block (stdio buffers that tail)
+    for ti, nt in enumerate(NUMTYPES):
+        bo = ('little', 'big')[ti % 2]
+        isz = ITEMSIZE[nt]
+        for tail in ([(), (3,)] if not ctx.quick else [((), (3,))[ti % 2]]):
+            rb = int(np.prod(tail, dtype=int)) * isz if tail else isz
+            nrows = -(-BIG // rb)
+            big_rows = (3 * 4096) // rb + 5
+            tot = big_rows * rb
+            lastblock = (tot // 4096) * 4096
+            ks = sorted({tot - 1, lastblock + (tot - lastblock) // 2, lastblock, lastblock + 1, lastblock - 1, 8192, 4097})
+            ks = [k for k in ks if 0 <= k < tot]
+            for start_empty in ((False, True) if not ctx.quick else [bool(ti % 3 == 0)]):
+                for kk in ([r.choice([k for k in ks if k >= lastblock])] if ctx.quick else ks):
+                    items = [nd_spec(rand_array(r, nt, bo, (big_rows,) + tail))]
+                    pos = 0
+                    if r.random() < 0.5:
+                        items.insert(0, nd_spec(rand_array(r, nt, bo, (big_rows if start_empty else 1,) + tail))); pos = 1
+                    op2 = dict(op='iterappend', items=items, fsize=dict(chunk=pos, k=kk))
+                    cases.append(mk_case(r, nt, bo, tail, nrows, start_empty, op2, 'w', pos))
+    # every third failing append happens with the array held open in an open_array() context
+    for i, c in enumerate(cases):
+        if i % 3 == 2:
+            c['heldopen'] = True
     return cases
 
 
@@ -131,6 +165,19 @@ def mk_case(r, nt, bo, tail, nrows, start_empty, op, kind, pos):
 
 
 def run(ctx):
+    # a darr Array larger than the library's internal chunk size appended as ONE object, growth refused
+    # inside its second internal piece / its last block
+    M = 80 * 1024 ** 2
+    big = [dict(rows=11, k=M + 3 * 4096 + 5)] + \
+          ([] if ctx.quick else [dict(rows=11, k=M), dict(rows=21, k=2 * M + 1), dict(rows=12, k=M + 8 * 1024 ** 2 + 4097)])
+    for case, ob in zip(big, ctx.run_impl(big, 'bigdarr', shards=len(big), timeout=1200)):
+        key = dict(form='append of a darr Array of %d x 8 MiB, growth refused after %d bytes' % (case['rows'], case['k']))
+        ctx.seen(key); ctx.count('bigdarr')
+        if not isinstance(ob, dict) or 'res' not in ob:
+            ctx.fail('harness-error', key, observed=ob); continue
+        want = dict(res='raises', after=ob['before'], fresh=[ob['before'][0], 3, 3])
+        if ob['res'] == 'ok' or ob['after'] != ob['before'] or ob['fresh'] != want['fresh']:
+            ctx.fail('failed-append:bigdarr', key, expected=want, observed=ob)
     cases = gen(ctx)
     obs = ctx.run_impl(cases, 'history', timeout=2400)
     terms, keep = [], []
